@@ -289,6 +289,6 @@ def check_unmapped(case, ctx):
 
 def parts(tier):
     return [
-        Part("mapped", check, strategy=case_strategy(), examples=(300, 5000)),
+        Part("mapped", check, strategy=case_strategy(), examples=(300, 15000)),
         Part("unmapped", check_unmapped, strategy=unmapped_case(), examples=(10, 60)),
     ]
